@@ -87,6 +87,59 @@ func (s *Sim) oracleC02(op Op, evs []SIEvent) {
 	if op.Kind != "sched" || s.pre == nil {
 		return
 	}
+	// a replacement decided in this cycle puts the real ask in the place of its placeholder: what it asks beyond the
+	// placeholder is new usage of the queue path, decided by the scheduler like any other allocation
+	for _, e := range evs {
+		if e.Kind != "released" || e.Type != "PLACEHOLDER_REPLACED" {
+			continue
+		}
+		app := s.post.Apps[e.App]
+		if app == nil || app.Allocs[e.Key] == nil || app.Allocs[e.Key].ReleaseKey == "" {
+			continue
+		}
+		if pa := s.pre.Apps[e.App]; pa != nil && pa.Allocs[e.Key] != nil && pa.Allocs[e.Key].ReleaseKey != "" {
+			continue
+		}
+		ph, real := s.shim.Allocs[e.Key], s.shim.Allocs[app.Allocs[e.Key].ReleaseKey]
+		leaf := s.appQueue(e.App)
+		if ph == nil || real == nil || leaf == "" {
+			continue
+		}
+		extra := Res{}
+		for t, v := range real.Res {
+			if v > ph.Res[t] {
+				extra[t] = v - ph.Res[t]
+			}
+		}
+		if len(extra) == 0 {
+			continue
+		}
+		s.probe("swap_with_extra_checked")
+		for _, qp := range ancestors(leaf) {
+			pq := s.pre.Queues[qp]
+			if pq == nil || qp == "root" {
+				continue
+			}
+			var max Res
+			if spec := s.conf.Find(qp); spec != nil && pq.Managed {
+				if len(spec.Max) == 0 || spec.Max.IsZero() {
+					continue
+				}
+				max = spec.Max
+			} else if pq.HasMax {
+				max = pq.Max
+			} else {
+				continue
+			}
+			usage := s.queueUsage(qp).Add(extra)
+			for t := range extra {
+				if mv, ok := max[t]; ok && usage[t] > mv {
+					s.violate("C02", "above-max", "swap", "scheduler replaces placeholder %s %s by %s %s for application %s in %s: usage of queue %s becomes %s, its maximum is %s", ph.Key, ph.Res, real.Key, real.Res, e.App, leaf, qp, usage, max)
+					break
+				}
+			}
+		}
+	}
 	for _, e := range evs {
 		if e.Kind != "new" {
 			continue
